@@ -240,6 +240,18 @@ func (o op) coqOp() string {
 		return fmt.Sprintf("HExt (XSetVeto %d %s)", o.Who, hx.B(o.Flag))
 	case "np":
 		return fmt.Sprintf("HExt (XSetNP %d %s)", o.A, zs(o.B))
+	case "blacklist":
+		return fmt.Sprintf("HExt (XBlacklist %d %s)", o.Who, o.B)
+	case "unblacklist":
+		return fmt.Sprintf("HExt (XUnblacklist %d %s)", o.Who, o.B)
+	case "assignrole":
+		return fmt.Sprintf("HExt (XAssignRole %d %d)", o.Who, o.A)
+	case "unassignrole":
+		return fmt.Sprintf("HExt (XUnassignRole %d %d)", o.Who, o.A)
+	case "rolewl":
+		return fmt.Sprintf("HExt (XRoleWl %d %s %s)", o.A, o.B, hx.B(o.Flag))
+	case "rolebl":
+		return fmt.Sprintf("HExt (XRoleBl %d %s %s)", o.A, o.B, hx.B(o.Flag))
 	}
 	return fmt.Sprintf("HExt (XSetDur %d %s)", o.A, o.B)
 }
@@ -249,6 +261,32 @@ func (o op) coqOp() string {
 const sec = int64(1000000000)
 const nActors = 13 // observers look at actor00..actor12
 const nRand = 7    // the random stream uses at most actor00..actor06
+
+// the roles the harness uses: 1 = sudo (genesis; whitelists every proposal / vote permission), 3 = "probe" (created per run)
+var roleIDs = []uint64{1, 3}
+var harnessPerms = map[uint32]bool{4: true, 5: true, 10: true, 11: true, 12: true, 13: true, 31: true, 32: true, 35: true, 36: true}
+
+// sorted permission list; role permission lists are restricted to the permissions the harness uses
+func permList(ps []uint32, restrict bool) string {
+	l := append([]uint32{}, ps...)
+	sort.Slice(l, func(x, y int) bool { return l[x] < l[y] })
+	var xs []string
+	for _, p := range l {
+		if !restrict || harnessPerms[p] {
+			xs = append(xs, strconv.Itoa(int(p)))
+		}
+	}
+	return hx.List(xs)
+}
+func roleList(rs []uint64) string {
+	l := append([]uint64{}, rs...)
+	sort.Slice(l, func(x, y int) bool { return l[x] < l[y] })
+	var xs []string
+	for _, r := range l {
+		xs = append(xs, strconv.FormatUint(r, 10))
+	}
+	return hx.List(xs)
+}
 
 func worldCoq(ctx sdk.Context, k govkeeper.Keeper) string {
 	p := k.GetNetworkProperties(ctx)
@@ -266,7 +304,8 @@ func worldCoq(ctx sdk.Context, k govkeeper.Keeper) string {
 		for _, w := range wl {
 			ws = append(ws, strconv.Itoa(int(w)))
 		}
-		as = append(as, fmt.Sprintf("(%d, mkA %s %s %s)", i, hx.B(a.IsActive()), hx.B(a.CanVote(govtypes.OptionNoWithVeto)), hx.List(ws)))
+		as = append(as, fmt.Sprintf("(%d, mkA %s %s %s %s %s)", i, hx.B(a.IsActive()), hx.B(a.CanVote(govtypes.OptionNoWithVeto)), hx.List(ws),
+			permList(a.Permissions.Blacklist, false), roleList(a.Roles)))
 	}
 	var ds, rs []string
 	for _, t := range typeNames {
@@ -294,7 +333,13 @@ func worldCoq(ctx sdk.Context, k govkeeper.Keeper) string {
 		}
 		pool = fmt.Sprintf("(Some (mkPool %s %s %d %d))", zlist(os), hx.ZBig(pl.VoteQuorum.BigInt()), pl.VotePeriod, pl.VoteEnactment)
 	}
-	return fmt.Sprintf("(mkW %s %s %s %s %s)", np, hx.List(as), hx.List(ds), hx.List(rs), pool)
+	var ros []string
+	for _, rid := range roleIDs {
+		if pm, found := k.GetPermissionsForRole(ctx, rid); found {
+			ros = append(ros, fmt.Sprintf("(%d, mkRole %s %s)", rid, permList(pm.Whitelist, true), permList(pm.Blacklist, true)))
+		}
+	}
+	return fmt.Sprintf("(mkW %s %s %s %s %s %s)", np, hx.List(as), hx.List(ds), hx.List(rs), pool, hx.List(ros))
 }
 
 var farFuture = time.Unix(1<<40, 0).UTC()
@@ -526,14 +571,6 @@ func main() {
 			specs = specs[:*nb]
 		}
 	}
-	optionSets := [][]govtypes.VoteOption{
-		{govtypes.OptionYes, govtypes.OptionNo, govtypes.OptionAbstain},
-		{govtypes.OptionYes},
-		{govtypes.OptionYes, govtypes.OptionNo},
-		{},
-		{govtypes.OptionNoWithVeto},
-		{govtypes.OptionNo, govtypes.OptionNoWithVeto},
-	}
 
 	for hi := 0; hi < *n+len(specs); hi++ {
 		r := rng.Fork()
@@ -566,29 +603,9 @@ func main() {
 		if spec != nil {
 			na = spec.N
 		}
-		for i := 0; i < na; i++ {
-			a := govtypes.NewDefaultActor(addr(int64(i)))
-			if spec == nil && r.Chance(35) { // restricted vote-option sets: the veto-capable set differs from the electorate
-				a.Votes = optionSets[r.Intn(len(optionSets))]
-			}
-			if spec == nil && r.Chance(5) {
-				a.Status = govtypes.Inactive
-			}
-			if spec != nil && i >= spec.Capable {
-				a.Votes = optionSets[(i+hi)%4] // none of the first four sets contains the veto option
-			}
-			k.SaveNetworkActor(hctx, a)
-			for _, pm := range perms {
-				if spec != nil && !(pm == 11 || pm == 10 && i == 0) {
-					continue
-				}
-				if spec != nil || r.Chance(85) {
-					act, _ := k.GetNetworkActorByAddress(hctx, a.Address)
-					if err := k.AddWhitelistPermission(hctx, act, govtypes.PermValue(pm)); err != nil {
-						panic(err)
-					}
-				}
-			}
+		// the electorate is NOT set up directly: it is built below by a prelude of real permission / role edits
+		if rid := k.CreateRole(hctx, "probe", "probe role"); rid != 3 {
+			panic(fmt.Sprintf("probe role id %d", rid))
 		}
 		if spec == nil && r.Chance(30) {
 			_ = k.SetProposalDuration(hctx, typeNames[r.Intn(5)], uint64(durVals[5+r.Intn(5)]))
@@ -707,6 +724,33 @@ func main() {
 							}
 							k.SaveNetworkActor(c, a)
 						}
+					case "blacklist", "unblacklist":
+						a, found := k.GetNetworkActorByAddress(c, addr(o.Who))
+						if !found {
+							a = govtypes.NewDefaultActor(addr(o.Who))
+						}
+						pm, _ := strconv.Atoi(o.B)
+						if o.Ext == "blacklist" {
+							_ = k.AddBlacklistPermission(c, a, govtypes.PermValue(pm))
+						} else if found {
+							_ = k.RemoveBlacklistedPermission(c, a, govtypes.PermValue(pm))
+						}
+					case "assignrole":
+						_ = k.AssignRoleToAccount(c, addr(o.Who), uint64(o.A))
+					case "unassignrole":
+						_ = k.UnassignRoleFromAccount(c, addr(o.Who), uint64(o.A))
+					case "rolewl", "rolebl":
+						pm, _ := strconv.Atoi(o.B)
+						switch {
+						case o.Ext == "rolewl" && o.Flag:
+							_ = k.WhitelistRolePermission(c, uint64(o.A), govtypes.PermValue(pm))
+						case o.Ext == "rolewl":
+							_ = k.RemoveWhitelistRolePermission(c, uint64(o.A), govtypes.PermValue(pm))
+						case o.Flag:
+							_ = k.BlacklistRolePermission(c, uint64(o.A), govtypes.PermValue(pm))
+						default:
+							_ = k.RemoveBlacklistRolePermission(c, uint64(o.A), govtypes.PermValue(pm))
+						}
 					case "np":
 						_ = k.SetNetworkProperty(c, govtypes.NetworkProperty(o.A), npValue(o.A, o.B))
 					case "dur":
@@ -767,13 +811,32 @@ func main() {
 			}
 			pc := propsCoq(hctx, k)
 			// stored votes of the proposals finalised by this end block; after a rotation: of every proposal
-			var fvs []string
+			var fvs, els []string
 			if ps, _ := k.GetProposals(hctx); res == 0 && (o.Kind == "end" || o.Kind == "rotate") {
 				sort.Slice(ps, func(i, j int) bool { return ps[i].ProposalId < ps[j].ProposalId })
 				for _, pr := range ps {
 					was, seen := lastRes[pr.ProposalId]
 					if o.Kind == "rotate" || (seen && was == govtypes.Pending || !seen) && pr.Result != govtypes.Pending {
 						fvs = append(fvs, fmt.Sprintf("(%d, %s)", pr.ProposalId, votesCoq(hctx, k, pr.ProposalId)))
+						if vp := pr.GetContent().VotePermission(); o.Kind == "end" && vp != govtypes.PermZero {
+							// the voters the code enumerates for the tally of this proposal
+							var ids []int
+							for _, a := range k.GetNetworkActorsByAbsoluteWhitelistPermission(hctx, vp) {
+								who := -1
+								for i := int64(0); i < nActors; i++ {
+									if addr(i).Equals(a.Address) {
+										who = int(i)
+									}
+								}
+								ids = append(ids, who)
+							}
+							sort.Ints(ids)
+							var xs []string
+							for _, x := range ids {
+								xs = append(xs, strconv.Itoa(x))
+							}
+							els = append(els, fmt.Sprintf("(%d, %s)", pr.ProposalId, hx.List(xs)))
+						}
 					}
 				}
 			}
@@ -796,7 +859,7 @@ func main() {
 					}
 				}
 			}
-			steps = append(steps, fmt.Sprintf("(%d, %d, %s, mkO %d %d %s %s %s %s %s %s)", o.T, o.H, o.coqOp(), res, newID, hx.List(aps), hx.List(evs), pc, votes, hx.List(fvs), wopt))
+			steps = append(steps, fmt.Sprintf("(%d, %d, %s, mkO %d %d %s %s %s %s %s %s %s)", o.T, o.H, o.coqOp(), res, newID, hx.List(aps), hx.List(evs), pc, votes, hx.List(fvs), hx.List(els), wopt))
 			o.Applied, o.Props = applied, pc
 			jh.Ops = append(jh.Ops, o)
 			dist.Inc(o.Kind + ":" + o.Res)
@@ -857,6 +920,79 @@ func main() {
 					l = append(l, [2]int{1 + r.Intn(8), durVals[r.Intn(len(durVals))]})
 				}
 				return &content{Kind: "durations", L: l}
+			}
+		}
+
+		// ---- prelude: the electorate is built through real edits (individual whitelist, role assignment,
+		// overlap of both followed by removing one source, blacklists, status / vote-option changes)
+		ext := func(name string, who, a int64, b string, flag bool) {
+			doOp(op{Kind: "ext", Ext: name, T: t, H: h, Who: who, A: a, B: b, Flag: flag})
+		}
+		if spec != nil {
+			for i := int64(0); i < int64(spec.N); i++ {
+				switch (int(i) + hi) % 4 {
+				case 0:
+					ext("whitelist", i, 0, "11", false)
+				case 1:
+					ext("assignrole", i, 1, "", false)
+				case 2: // holds the permission both ways, then loses the role: still a holder
+					ext("whitelist", i, 0, "11", false)
+					ext("assignrole", i, 1, "", false)
+					ext("unassignrole", i, 1, "", false)
+				default: // holds it both ways, then loses the individual entry: still a holder through the role
+					ext("assignrole", i, 1, "", false)
+					ext("whitelist", i, 0, "11", false)
+					ext("unwhitelist", i, 0, "11", false)
+				}
+				if i == 0 && (hi%4 == 0 || hi%4 == 2) {
+					ext("whitelist", 0, 0, "10", false)
+				}
+				if int(i) >= spec.Capable {
+					ext("veto", i, 0, "", false)
+				}
+			}
+		} else {
+			for _, pm := range perms { // the probe role whitelists a random subset
+				if r.Chance(45) {
+					ext("rolewl", 0, 3, strconv.Itoa(int(pm)), true)
+				} else if r.Chance(6) {
+					ext("rolebl", 0, 3, strconv.Itoa(int(pm)), true)
+				}
+			}
+			for i := int64(0); i < int64(na); i++ {
+				mode := r.Intn(6)
+				if mode != 1 {
+					for _, pm := range perms {
+						if r.Chance(85) {
+							ext("whitelist", i, 0, strconv.Itoa(int(pm)), false)
+						}
+					}
+				}
+				switch mode {
+				case 1:
+					ext("assignrole", i, 1, "", false)
+				case 2:
+					ext("assignrole", i, 1, "", false)
+					if r.Chance(60) {
+						ext("unassignrole", i, 1, "", false)
+					}
+				case 3:
+					ext("assignrole", i, 3, "", false)
+					if r.Chance(50) {
+						ext("unwhitelist", i, 0, strconv.Itoa(int(perms[r.Intn(len(perms))])), false)
+					}
+					if r.Chance(30) {
+						ext("unassignrole", i, 3, "", false)
+					}
+				case 4:
+					ext("blacklist", i, 0, strconv.Itoa(int(perms[r.Intn(len(perms))])), false)
+				}
+				if r.Chance(35) {
+					ext("veto", i, 0, "", false)
+				}
+				if r.Chance(5) {
+					ext("active", i, 0, "", false)
+				}
 			}
 		}
 
@@ -954,8 +1090,24 @@ func main() {
 							who = voted[id][r.Intn(len(voted[id]))]
 						}
 						doOp(op{Kind: "vote", T: t, H: h, Who: who, ID: id, Opt: opt})
-					case x < 84:
+					case x < 82:
 						doOp(op{Kind: "ext", Ext: "whitelist", T: t, H: h, Who: int64(r.Intn(nRand)), B: strconv.Itoa(int(perms[r.Intn(len(perms))]))})
+					case x < 84:
+						rid := int64([]int{1, 1, 3, 3, 2}[r.Intn(5)]) // role 2 is not one of the observed roles: assignment to it is rejected by the harness model? no: skipped below
+						if rid == 2 {
+							rid = 3
+						}
+						pmS := strconv.Itoa(int(perms[r.Intn(len(perms))]))
+						switch r.Intn(6) {
+						case 0, 1:
+							doOp(op{Kind: "ext", Ext: "assignrole", T: t, H: h, Who: pick(), A: rid})
+						case 2, 3:
+							doOp(op{Kind: "ext", Ext: "unassignrole", T: t, H: h, Who: pick(), A: rid})
+						case 4:
+							doOp(op{Kind: "ext", Ext: []string{"blacklist", "unblacklist"}[r.Intn(2)], T: t, H: h, Who: pick(), B: pmS})
+						default:
+							doOp(op{Kind: "ext", Ext: []string{"rolewl", "rolebl"}[r.Intn(2)], T: t, H: h, A: 3, B: pmS, Flag: r.Bool()})
+						}
 					case x < 87:
 						doOp(op{Kind: "ext", Ext: "unwhitelist", T: t, H: h, Who: pick(), B: strconv.Itoa(int(perms[r.Intn(len(perms))]))})
 					case x < 90:
